@@ -39,6 +39,15 @@ def gen_case(rng):
             ads1 = [G.gen_adapter(rng, i, kinds=simple) for i in range(len(ads1))]
             ads2 = [G.gen_adapter(rng, i, upper=True, prefix="bd", kinds=simple) for i in range(len(ads1))]
             pair_adapters = True
+            if rng.random() < 0.4:
+                # two ranks share the adapter on one side (combinatorial dual indexing): every rank keeps its own statistics
+                if len(ads1) < 2:
+                    ads1.append(G.gen_adapter(rng, 1, kinds=simple))
+                    ads2.append(G.gen_adapter(rng, 1, upper=True, prefix="bd", kinds=simple))
+                side = ads1 if rng.random() < 0.6 else ads2
+                a0, a1 = side[0], side[1]
+                a1["kind"], a1["parts"], a1["flag"], a1["spec"] = a0["kind"], list(a0["parts"]), a0["flag"], a0["spec"]
+                a1["argv"] = [a1["flag"], f"{a1['name']}={a1['spec']}"]
         elif rng.random() < 0.7:
             ads2 = [G.gen_adapter(rng, i, upper=True, prefix="bd", kinds=kinds) for i in range(rng.randint(1, 2))]
     wild = rng.random() < 0.25
@@ -88,7 +97,10 @@ def add_single(t, m):
         t["adj"][b if b in ("A", "C", "G", "T") else ""] += 1
 
 
-def tally_matches(groups, side):
+def tally_matches(groups, side, ranks=None):
+    """ranks: for --pair-adapters, (names of the R1 adapters by rank, names of the R2 adapters by rank, side whose
+    sequences are all distinct). The two adapters applied to a pair have the same rank, so when one side lists the same
+    sequence twice the name to count the match under is taken from the partner's rank, not from the match object."""
     tally = collections.defaultdict(new_tally)
     with_adapter = 0
     n_rc = 0
@@ -100,7 +112,13 @@ def tally_matches(groups, side):
                 ms += e.get("matches", [])
                 rc = rc or bool(e.get("rc"))
             elif e["k"] == "pmod" and e["c"] in climon.probe.ADAPTER_STAGE:
-                ms += e.get("matches1" if side == 1 else "matches2", [])
+                here = e.get("matches1" if side == 1 else "matches2", [])
+                if ranks and e["c"] == "PairedAdapterCutter" and ranks[2] != side and here:
+                    other = e.get("matches2" if side == 1 else "matches1", [])
+                    if other and other[0]["name"] in ranks[2 - side]:
+                        idx = ranks[2 - side].index(other[0]["name"])
+                        here = [dict(here[0], name=ranks[side - 1][idx])]
+                ms += here
                 rc = rc or bool(e.get("rc"))
         if ms:
             with_adapter += 1
@@ -214,12 +232,19 @@ def one_case(ctx, k):
             ctx.count("trace_incomplete")
             return
         rep = run.json_report()
-        t1, wa1, nrc = tally_matches(groups, 1)
+        ranks = None
+        if c["pair_adapters"]:
+            d1 = len({a["spec"] for a in c["ads1"]}) < len(c["ads1"])
+            d2 = len({a["spec"] for a in c["ads2"]}) < len(c["ads2"])
+            if d1 != d2:
+                ranks = ([a["name"] for a in c["ads1"]], [a["name"] for a in c["ads2"]], 2 if d1 else 1)
+                ctx.count("pair_adapter_runs_with_a_shared_adapter")
+        t1, wa1, nrc = tally_matches(groups, 1, ranks)
         check_side(ctx, c, case, rep["adapters_read1"], t1, 1, viol)
         if (rep["read_counts"]["read1_with_adapter"] or 0) != wa1:
             viol("with-adapter", f"read1_with_adapter={rep['read_counts']['read1_with_adapter']}, {wa1} reads had a match applied")
         if c["paired"]:
-            t2, wa2, _ = tally_matches(groups, 2)
+            t2, wa2, _ = tally_matches(groups, 2, ranks)
             check_side(ctx, c, case, rep["adapters_read2"] or [], t2, 2, viol)
             if (rep["read_counts"]["read2_with_adapter"] or 0) != wa2:
                 viol("with-adapter", f"read2_with_adapter={rep['read_counts']['read2_with_adapter']}, {wa2} reads had a match applied")
